@@ -129,7 +129,7 @@ pub fn run(lines: &[Value], opts: &TableOpts, other_process_hashes: Option<Vec<S
     let mut sm = Summary::default();
     for (i, inst) in lines.iter().enumerate() {
         sm.evaluations += 1;
-        if (i as u64 + opts.seed) % 5 == 0 || lines.len() == 1 { reweighted(inst, i as u64, opts, &mut sm); }
+        if (i as u64 + opts.seed) % 2 == 0 || lines.len() == 1 { reweighted(inst, i as u64, opts, &mut sm); }
         let (g, map, _swap, out) = build_for(inst, i as u64 + opts.base_idx, opts);
         let e = g.ne();
         let div = inst["div"].as_bool().unwrap();
